@@ -26,6 +26,7 @@ type ProgOpts struct {
 	CSRs       []int
 	// Weights of ALU sub-classes (0 = default).
 	WImm, WReg, WShift, WW, WMul, WUpper int
+	FavAMO     string // if set, half of the atomics of the program are this mnemonic
 }
 
 func immBoundary(r *core.Rand) int64 {
@@ -140,15 +141,34 @@ func RandomProgram(r *core.Rand, base uint64, n int, o ProgOpts) []ProgIns {
 			if r.Chance(1, 10) {
 				off = immBoundary(r)
 			}
+			// the value register is now and then the address register itself
+			// (the pointer is stored / combined at its own address), and the
+			// destination now and then overwrites the pointer
+			val := func() int {
+				if r.Chance(1, 8) {
+					return p
+				}
+				return reg()
+			}
+			mdst := func() int {
+				if r.Chance(1, 20) {
+					return p
+				}
+				return dst()
+			}
 			switch r.Intn(10) {
 			case 0, 1, 2, 3:
-				emit(i, pick([]string{"lb", "lh", "lw", "ld", "lbu", "lhu", "lwu"}), dst(), p, 0, off)
+				emit(i, pick([]string{"lb", "lh", "lw", "ld", "lbu", "lhu", "lwu"}), mdst(), p, 0, off)
 			case 4, 5, 6, 7:
-				emit(i, pick([]string{"sb", "sh", "sw", "sd"}), 0, p, reg(), off)
+				emit(i, pick([]string{"sb", "sh", "sw", "sd"}), 0, p, val(), off)
 			case 8:
-				emit(i, pick(Names("AMO")), dst(), p, reg(), int64(r.Intn(4)))
+				name := pick(Names("AMO"))
+				if o.FavAMO != "" && r.Bool() {
+					name = o.FavAMO // swarm: this program dwells on one atomic form
+				}
+				emit(i, name, mdst(), p, val(), int64(r.Intn(4)))
 			default:
-				emit(i, pick(Names("LR")), dst(), p, 0, int64(r.Intn(4)))
+				emit(i, pick(Names("LR")), mdst(), p, 0, int64(r.Intn(4)))
 			}
 		case x < o.JumpPct+o.MemPct+o.CSRPct:
 			c := int64(csrs[r.Intn(len(csrs))])
